@@ -3,7 +3,7 @@ Require Import Floats.SpecFloat.
 Require Import List ZArith Bool.
 From Flocq Require Import Core BinarySingleNaN.
 From Dasp Require Import Base.Res Base.Float Sample.Rint Sample.ConvSpec Sample.SampleFmt Sample.SampleOps
-  Frame.Frame Frame.FrameOps Frame.ChanIter.
+  Frame.Frame Frame.FrameOps Frame.ChanIter Frame.FrameMut.
 From DaspGen Require Import SampleTable.
 Import ListNotations.
 Open Scope Z_scope.
@@ -40,3 +40,17 @@ Example ex_script : fst (channels_script 4 [SNext; SNext; SNth 0; SLen] [10; 20;
   = [OOpt (Some 10); OOpt (Some 20); OOpt (Some 30); ONat (Ok 1%nat)]. Proof. reflexivity. Qed.
 Example ex_script_mono : fst (mono_channels_script [SNext; SNth 0; SLen] 7)
   = [OOpt (Some 7); OOpt None; ONat (Ok 0%nat)]. Proof. reflexivity. Qed.
+(* a clone of a partly consumed channels() continues from the SAME position (not from 0) and does not advance the original *)
+Example ex_script_clone : fst (channels_script 4 [SNext; SClonePeek; SNext; SClonePeek; SLen] [10; 20; 30; 40])
+  = [OOpt (Some 10); OPeek (Some 20) (Ok 2%nat); OOpt (Some 20); OPeek (Some 30) (Ok 1%nat); ONat (Ok 2%nat)].
+Proof. reflexivity. Qed.
+(* mutable accessors: a write through channel_mut changes that channel only; out of range: None, frame untouched *)
+Example ex_channel_mut : channel_mut_write [4; 5; 6] 1 9 = (true, [4; 9; 6]) /\ channel_mut_write [4; 5; 6] 3 9 = (false, [4; 5; 6]).
+Proof. split; reflexivity. Qed.
+Example ex_channel_unchecked_mut : channel_unchecked_mut_write [4; 5; 6] 2 9 = Ok [4; 5; 9] /\ channel_unchecked_mut_write [4; 5; 6] 3 9 = UB.
+Proof. split; reflexivity. Qed.
+(* writes through channels_mut(): front to back, and (through .rev()) back to front; the shorter side ends the zip *)
+Example ex_channels_mut_write : overwrite [7; 8] [1; 2; 3] = [7; 8; 3] /\ overwrite_back [7; 8] [1; 2; 3] = [1; 8; 7]
+  /\ overwrite [7; 8; 9; 10] [1; 2; 3] = [7; 8; 9].
+Proof. repeat split; reflexivity. Qed.
+
